@@ -541,6 +541,10 @@ pub struct DialCase {
     /// header, a URL of the *other* name in the query), 3 = HTTP GET in absolute-form
     #[serde(default)]
     pub via: Vec<u8>,
+    /// per request: true = the request names a port of that host where nothing listens: it must be
+    /// refused and nobody else may be dialled in its place
+    #[serde(default)]
+    pub closed: Vec<bool>,
 }
 
 pub struct DialFam;
@@ -551,9 +555,16 @@ impl Family for DialFam {
         "dial"
     }
     fn strategy(&self, _tier: Tier) -> BoxedStrategy<DialCase> {
-        (proptest::collection::vec((any::<bool>(), any::<bool>()), 2..7), proptest::option::of((0u8..6, prop_oneof![Just(30u16), Just(61)])), proptest::collection::vec(0u8..4, 7))
-            .prop_map(|(reqs, age_after, via)| DialCase { reqs, age_after, via })
+        (proptest::collection::vec((any::<bool>(), any::<bool>()), 2..7), proptest::option::of((0u8..6, prop_oneof![Just(30u16), Just(61)])), proptest::collection::vec(0u8..4, 7), proptest::collection::vec(proptest::bool::weighted(0.25), 7))
+            .prop_map(|(reqs, age_after, via, closed)| DialCase { reqs, age_after, via, closed })
             .boxed()
+    }
+    fn fixed_cases(&self, _tier: Tier) -> Vec<DialCase> {
+        // a listening port of the host first (it fills the cache), then a port of the same host where nothing listens
+        vec![
+            DialCase { reqs: vec![(false, false), (false, false), (false, true)], age_after: None, via: vec![0, 0, 0], closed: vec![false, true, false] },
+            DialCase { reqs: vec![(true, true), (true, false), (false, false), (false, false)], age_after: None, via: vec![1, 0, 0, 0], closed: vec![false, true, false, true] },
+        ]
     }
     fn case_budget_s(&self) -> u64 {
         90
@@ -576,6 +587,7 @@ impl Family for DialFam {
                     [TcpTarget::start(IpAddr::V4(ip_b), TargetMode::Echo).await?, TcpTarget::start(IpAddr::V4(ip_b), TargetMode::Echo).await?],
                 ];
                 let mut multi = false;
+                let closed_ports = [crate::lab_sock::free_port(IpAddr::V4(ip_a))?, crate::lab_sock::free_port(IpAddr::V4(ip_b))?];
                 let mut seen: [Vec<bool>; 2] = [Vec::new(), Vec::new()];
                 for (k, (nb, lb)) in case.reqs.iter().enumerate() {
                     let ni = *nb as usize;
@@ -588,6 +600,23 @@ impl Family for DialFam {
                     let other = if ni == 0 { &name_b } else { &name_a };
                     let other_port = t[1 - ni][li].addr.port();
                     let how = ["SOCKS5", "HTTP CONNECT", "HTTP GET (origin-form + Host)", "HTTP GET (absolute-form)"][via as usize];
+                    if case.closed.get(k).copied().unwrap_or(false) {
+                        let port = closed_ports[ni];
+                        let r = tokio::time::timeout(Duration::from_secs(40), socks5_connect(w.socks, &Dest::Name(name.clone(), port))).await;
+                        tokio::time::sleep(Duration::from_millis(50)).await;
+                        let flat: Vec<&TcpTarget> = t.iter().flatten().collect();
+                        for (i, x) in flat.iter().enumerate() {
+                            ensure!(
+                                x.n_conns() == before[i],
+                                "C07.dial",
+                                "request #{k} for {name}:{port}, where nothing listens, was dialled at {} instead (earlier requests: {:?})",
+                                x.addr,
+                                &case.reqs[..k]
+                            );
+                        }
+                        ensure!(matches!(r, Ok(Err(_))), "C07.dial", "request #{k} for {name}:{port}, where nothing listens, was answered {}", if r.is_err() { "not at all" } else { "'succeeded'" });
+                        continue;
+                    }
                     let refused = |e: String| {
                         Fail::plain(
                             "C07.dial",
@@ -668,6 +697,7 @@ impl Family for DialFam {
         out.nt(multi);
         out.class_if(multi, "same-host-other-port-in-ttl");
         out.class_if(case.age_after.is_some(), "cache-aged");
+        out.class_if((0..case.reqs.len()).any(|k| k > 0 && case.closed.get(k).copied().unwrap_or(false)), "closed-port-of-a-cached-host");
         let vias: Vec<u8> = (0..case.reqs.len()).map(|k| case.via.get(k).copied().unwrap_or(0) % 4).collect();
         out.class_if(vias.contains(&1), "via-http-connect");
         out.class_if(vias.contains(&2), "via-http-origin-form+url-in-query");
